@@ -539,24 +539,17 @@ theorem tasks_notifyAll (s : St) (ks : List Key) : (notifyAll s ks).tasks = s.ta
 
 /-- the condition keys the `finally` of `_run_node` notifies on the normal path -/
 def finallyKeys (P : Program) (d : DagRef) (n : Node) : List Key :=
-  (P.g.desc1 n).map Key.node ++ [.run] ++ (if d.dest == some n then [.node n] else [])
+  (P.g.desc1 n).map Key.node ++ [.run] ++ [.node n]
 
 theorem tasks_nodeFinally (P : Program) (s : St) (d : DagRef) (n : Node) :
     (nodeFinally P s d n true).tasks = s.tasks.map (wakeSet (finallyKeys P d n) [n]) := by
   simp only [nodeFinally, Bool.not_true, Bool.false_eq_true, if_false]
-  split
-  · rw [tasks_notify, tasks_notify, tasks_notifyAll, tasks_setEvent]
-    simp only [List.map_map]
-    apply List.map_congr_left
-    intro tk _
-    simp only [Function.comp, wakeSet_comp, finallyKeys]
-    simp [*]
-  · rw [tasks_notify, tasks_notifyAll, tasks_setEvent]
-    simp only [List.map_map]
-    apply List.map_congr_left
-    intro tk _
-    simp only [Function.comp, wakeSet_comp, finallyKeys]
-    simp [*]
+  rw [tasks_notify, tasks_notify, tasks_notifyAll, tasks_setEvent]
+  simp only [List.map_map]
+  apply List.map_congr_left
+  intro tk _
+  simp only [Function.comp, wakeSet_comp, finallyKeys]
+  simp
 
 /-- apart from the task list, the `finally` only sets the node's event -/
 theorem nodeFinally_hideCount (P : Program) (s : St) (d : DagRef) (n : Node) (u : Bool) :
@@ -570,13 +563,9 @@ theorem nodeFinally_hideCount (P : Program) (s : St) (d : DagRef) (n : Node) (u 
   simp only []
   split
   · exact ⟨rfl, rfl⟩
-  · split
-    · have := hna ((P.g.desc1 n).map Key.node) (setEvent s n)
-      simp only [notify]
-      exact this
-    · have := hna ((P.g.desc1 n).map Key.node) (setEvent s n)
-      simp only [notify]
-      exact this
+  · have := hna ((P.g.desc1 n).map Key.node) (setEvent s n)
+    simp only [notify]
+    exact this
 
 theorem nodeFinally_fields (P : Program) (s : St) (d : DagRef) (n : Node) (u : Bool) :
     (nodeFinally P s d n u).res = s.res ∧ (nodeFinally P s d n u).resHid = s.resHid ∧
@@ -598,13 +587,9 @@ theorem nodeFinally_fields (P : Program) (s : St) (d : DagRef) (n : Node) (u : B
   simp only []
   split
   · exact ⟨rfl, rfl, rfl, rfl, rfl, rfl, rfl, rfl⟩
-  · split
-    · have := hna ((P.g.desc1 n).map Key.node) (setEvent s n)
-      simp only [notify]
-      exact this
-    · have := hna ((P.g.desc1 n).map Key.node) (setEvent s n)
-      simp only [notify]
-      exact this
+  · have := hna ((P.g.desc1 n).map Key.node) (setEvent s n)
+    simp only [notify]
+    exact this
 
 end MLPE.Eng
 
@@ -2737,14 +2722,8 @@ namespace MLPE.Eng
 open MLPE
 variable {val : Node → Option Val}
 
-theorem reducedRef_congr_opened (P : Program) (s : St) (h : ∀ n, s.opened n = false) (a b : Node) (x y z : Bool) :
-    reducedRef P s a b x y z = reducedRef P init a b x y z := by
-  have : filteredView P s = filteredView P init := by
-    unfold filteredView
-    have : s.opened = init.opened := by funext n; rw [h n]; rfl
-    rw [this]
-  unfold reducedRef
-  rw [this]
+theorem reducedRef_congr_opened (P : Program) (s : St) (_h : ∀ n, s.opened n = false) (a b : Node) (x y z : Bool) :
+    reducedRef P s a b x y z = reducedRef P init a b x y z := rfl
 
 theorem plainP_of_check {P : Program} {d : DagRef} (hc : plainCheck P d = true)
     (hsw : ∀ n, P.g.isSwitch n = false) (hhd : ∀ n, P.g.isOneofHead n = false)
